@@ -268,7 +268,7 @@ class SimSolver:
       {"mode":"sim_timeout","sim_duration":D,"late":"FEASIBLE"|"NO_SOLUTION_FOUND"}
                                                    the solve "takes" D simulated seconds: if the max_seconds that
                                                    the caller forwarded is < D the time-out status is reported
-      optional "preprocess": 0|1|-1                forced on the model before solving (discriminator for CBC's own faults)
+      optional "preprocess": 0|1|-1, "cuts": 0     forced on the model before solving (discriminator for CBC's own faults)
       optional "x_noise": {"seed":s,"eps":e}       the solution values read back through mip.Var.x are off by up to e (< the solver's
                                                    integrality tolerance, CBC: 1e-6) in a direction fixed by (s, variable index): a MIP
                                                    solver returns integer variables only up to that tolerance (0.9999999 for 1). The
@@ -335,6 +335,8 @@ class SimSolver:
         mode = m.get("mode", "real")
         if "preprocess" in m:
             model.preprocess = m["preprocess"]
+        if "cuts" in m:
+            model.cuts = m["cuts"]          # 0 = no cut generation (plain branch and bound)
         st = mip.OptimizationStatus
         if mode == "real":
             return self._orig(model, *args, **kwargs)
